@@ -311,9 +311,10 @@ class Image(Traversable):
     def make_export_name(self, name, is_file=True) -> str:
         export_name = self.make_safe_name(name)
         export_name = self._INVALID_FILE_NAME.sub(" ", name).strip()
-        match = self._SAFE_ENDING.match(export_name)
-        if match:
-            export_name = match.group(1)
+        # same result as _SAFE_ENDING.match(export_name).group(1), which
+        # backtracks cubically on a long run of spaces inside the name
+        if export_name.endswith("."):
+            export_name = export_name[:-1].rstrip() or export_name
         if len(export_name) <= 0:
             export_name = "0"
         match = re.match(r"\w", export_name)
